@@ -472,9 +472,15 @@ impl Config {
                             .ok_or_else(|| {
                                 Error::InvalidConfig("apply-subnet cannot be nil".into())
                             })?;
+                        if subnet.prefixlen < 8 {
+                            return Err(Error::InvalidConfig(format!(
+                                "apply-subnet: /{} is too large to be an address pool (shortest supported is /8)",
+                                subnet.prefixlen
+                            )));
+                        }
                         let base: u32 = subnet.network().into();
                         let addresses = addresses.get_or_insert_with(Vec::new);
-                        for i in 1..((1 << (32 - subnet.prefixlen)) - 1) {
+                        for i in 1..((1_u32 << (32 - subnet.prefixlen)) - 1) {
                             addresses.push((base + i).into())
                         }
                     }
